@@ -121,7 +121,7 @@ def run(ctx):
     bt = os.path.join(ctx.work, "bases_tlc.ndjson")
     with open(bt, "w") as f:
         for b in vlib.read_ndjson(bases):
-            rec = {"name": b["name"], "nslots": b["nslots"], "classes": [s["class"] for s in b["slots"]], "ntails": b["ntails"], "nbodies": b["nbodies"]}
+            rec = {"name": b["name"], "nslots": b["nslots"], "classes": [s["class"] for s in b["slots"]], "ntails": b["ntails"], "nbodies": b["nbodies"], "nrefs": b["nrefs"]}
             f.write(json.dumps(rec) + "\n")
             base_events.append(dict(rec, ev="base"))
             ctx.extra.setdefault("bases", {})[b["name"]] = {"bytes": b["len"], "slots": b["nslots"], "slot_classes": b["classes"]}
